@@ -19,6 +19,7 @@ import (
 )
 
 type Job struct {
+	Env     []string          `json:"env"`
 	Dir     string            `json:"dir"`
 	Pkg     string            `json:"pkg"`
 	Module  string            `json:"module"`
@@ -72,7 +73,7 @@ func main() {
 		Mode:    packages.LoadAllSyntax,
 		Dir:     job.Dir,
 		Overlay: overlay,
-		Env:     append(os.Environ(), "GOFLAGS=-mod=mod", "GOPROXY=off", "GOSUMDB=off", "GOTOOLCHAIN=local"),
+		Env:     append(append(os.Environ(), "GOFLAGS=-mod=mod", "GOPROXY=off", "GOSUMDB=off", "GOTOOLCHAIN=local"), job.Env...),
 	}
 	pkgs, err := packages.Load(cfg, job.Pkg)
 	if err != nil {
@@ -234,8 +235,19 @@ func runHarness(prog *ssa.Program, root *ssa.Package, modPkgs map[string]bool, r
 		regWith[5] = "another package"
 		x.setupRegistry(st, regWith)
 		st2.pc = append(st2.pc, x.d.BNot(other))
+		st3 := st2.clone()
 		x.setupRegistry(st2, reg)
-		starts = []*State{st, st2}
+		// third configuration: some other package re-registers SHA-256 with a different constructor
+		// (crypto.RegisterHash silently overwrites); only code that consults the registry can notice
+		override := x.d.Var("other_package_overrides_sha256", 0)
+		st3.pc = append(st3.pc, override)
+		regOv := map[int64]string{}
+		for k, v := range reg {
+			regOv[k] = v
+		}
+		regOv[5] = "override"
+		x.setupRegistry(st3, regOv)
+		starts = []*State{st, st2, st3}
 	}
 	var args []Val
 	for i, p := range hf.Params {
@@ -307,8 +319,11 @@ func (x *Exec) setupRegistry(st *State, reg map[int64]string) {
 	slots := make([]Val, maxHash)
 	for i := range slots {
 		slots[i] = F{}
-		if _, ok := reg[int64(i)]; ok {
+		if v, ok := reg[int64(i)]; ok {
 			slots[i] = F{fn: "symx.hashctor"}
+			if v == "override" {
+				slots[i] = F{fn: "symx.otherctor"}
+			}
 		}
 	}
 	other := x.cfg.Args != nil && len(x.cfg.Args) > 0 && x.cfg.Args[len(x.cfg.Args)-1] == 1
